@@ -1,9 +1,11 @@
 (* C19 clause 6, the remaining case made explicit: a triangle WITHOUT area (colinear or coincident vertices) with a stroke of
    width 1 and Inside alignment paints exactly the Bresenham line between its first and last vertex in (y,x) order, in the
-   stroke colour - "its three edge lines" degenerate to that one line. *)
+   stroke colour.  That is not in general the union of the three directed edge lines which Center / Outside alignment paint for
+   the same vertices (Bresenham ties depend on the direction): read literally, clause 6 fails for flat Inside triangles; the
+   theorem states what the code does. *)
 From EG Require Import Base.Prelude Base.Lemmas Model.Geometry Model.Style Model.Line Model.Thickline Model.Join Model.JoinTri.
 From EG Require Import Proofs.Geometry Proofs.Line Proofs.Thickline Proofs.Join Proofs.JoinTri Proofs.JoinW1 Proofs.JoinTriDraw Proofs.JoinHull.
-From EG Require Proofs.Triangle Proofs.JoinTriFill.
+From EG Require Proofs.Triangle Proofs.JoinTriFill Proofs.JoinRange.
 From EG Require Import Proofs.JoinOutline Proofs.JoinOutlineAny Proofs.JoinCollapsed Proofs.JoinW1Collapsed.
 From Coq Require Import ZifyBool.
 Set Default Timeout 60.
@@ -39,4 +41,16 @@ Proof.
   - intros [_ [_ I]]. exact I.
   - intros I. split; [|split; [reflexivity | exact I]].
     apply EG.Proofs.Triangle.line_points_hull in I as [_ R]. cbn [l_start l_end] in R. lia.
+Qed.
+
+(* on the machine range (vertices within +-V, V + 14 <= 8191) *)
+Theorem flat_inside_w1_is_line_range V t fill : EG.Proofs.JoinRange.range_ok V 1 -> EG.Proofs.JoinRange.tri_within V t ->
+  jt_area_doubled t = 0 ->
+  let '(p1, p2, p3) := jt_sorted_yx (jt_sorted_clockwise t) in
+  exists px, jt_pixels t 1 Inside fill = Some px /\
+    (forall pc, In pc px -> snd pc = 1) /\
+    (forall p, In p (map fst px) <-> In p (line_points (L p1 p3))).
+Proof.
+  intros R [H1 [H2 H3]] Z0. apply flat_inside_w1_is_line; [|exact Z0].
+  repeat split; eapply EG.Proofs.JoinRange.within_big_V; eassumption.
 Qed.
